@@ -3,17 +3,26 @@ package iri
 import (
 	"net/url"
 	"strings"
-	_ "unsafe"
 )
 
-// ParsedIRI is a light wrapper to url.URL with the following notable exceptions:
+// ParsedIRI holds the five components of an IRI reference exactly as written (RFC 3986, appendix B) and resolves
+// references with the strict algorithm of RFC 3986, section 5.2. No case, percent-encoding or host normalisation is
+// applied, and an empty query or fragment is distinguished from an absent one.
 //
-//   - raw path and raw fragments are preserved
-//   - empty fragment data is always included, if included in the original string
+// A [url.URL] view is kept for callers which need one and to reject strings that [url.Parse] considers malformed.
 type ParsedIRI struct {
-	u             *url.URL
-	forceFragment bool
-	isOpaque      bool // true if this is a non-hierarchical URI (uses Opaque field)
+	u *url.URL
+
+	scheme    string
+	authority string
+	path      string
+	query     string
+	fragment  string
+
+	hasScheme    bool
+	hasAuthority bool
+	hasQuery     bool
+	hasFragment  bool
 }
 
 func ParseIRI(s string) (*ParsedIRI, error) {
@@ -22,32 +31,46 @@ func ParseIRI(s string) (*ParsedIRI, error) {
 		return nil, err
 	}
 
-	isOpaque := false
+	p := splitIRI(s)
+	p.u = u
 
-	// For non-hierarchical schemes (not http/https), use Opaque to avoid '//' authority
-	if u.Scheme != "" && u.Scheme != "http" && u.Scheme != "https" && u.Scheme != "file" && u.Host == "" && u.Opaque == "" {
-		isOpaque = true
-		// url.Parse puts everything after scheme: into Path with leading '/'
-		// Move it to Opaque without the leading '/'
-		if u.Path != "" {
-			if u.Path[0] == '/' {
-				u.Opaque = u.Path[1:]
-			} else {
-				u.Opaque = u.Path
-			}
-			u.Path = ""
-			u.RawPath = ""
-		} else {
-			// Empty path - set Opaque to empty string to mark as non-hierarchical
-			u.Opaque = ""
-		}
+	return p, nil
+}
+
+// splitIRI separates the components; it accepts every string.
+func splitIRI(s string) *ParsedIRI {
+	p := &ParsedIRI{}
+
+	if i := strings.IndexAny(s, ":/?#"); i > 0 && s[i] == ':' {
+		p.scheme, p.hasScheme = s[:i], true
+		s = s[i+1:]
 	}
 
-	return &ParsedIRI{
-		u:             u,
-		forceFragment: strings.HasSuffix(s, "#"),
-		isOpaque:      isOpaque,
-	}, nil
+	if strings.HasPrefix(s, "//") {
+		s = s[2:]
+
+		i := strings.IndexAny(s, "/?#")
+		if i < 0 {
+			i = len(s)
+		}
+
+		p.authority, p.hasAuthority = s[:i], true
+		s = s[i:]
+	}
+
+	if i := strings.IndexByte(s, '#'); i >= 0 {
+		p.fragment, p.hasFragment = s[i+1:], true
+		s = s[:i]
+	}
+
+	if i := strings.IndexByte(s, '?'); i >= 0 {
+		p.query, p.hasQuery = s[i+1:], true
+		s = s[:i]
+	}
+
+	p.path = s
+
+	return p
 }
 
 func (u *ParsedIRI) URL() *url.URL {
@@ -57,18 +80,16 @@ func (u *ParsedIRI) URL() *url.URL {
 }
 
 func (u *ParsedIRI) IsAbs() bool {
-	return u.u.IsAbs()
+	return u.hasScheme
 }
 
 func (u *ParsedIRI) DropFragment() {
-	u.forceFragment = false
+	u.fragment, u.hasFragment = "", false
 	u.u.Fragment = ""
 	u.u.RawFragment = ""
 }
 
 func (u *ParsedIRI) Parse(ref string) (*ParsedIRI, error) {
-	// duplicated from stdlib
-
 	refIRI, err := ParseIRI(ref)
 	if err != nil {
 		return nil, err
@@ -77,215 +98,139 @@ func (u *ParsedIRI) Parse(ref string) (*ParsedIRI, error) {
 	return u.ResolveReference(refIRI), nil
 }
 
-// bad; marginally better than duplicating private encode(*, encodePath) behavior?
-//
-//go:linkname badSetPath net/url.(*URL).setPath
-func badSetPath(u *url.URL, path string)
-
+// ResolveReference implements RFC 3986, section 5.2.2 (strict).
 func (iri *ParsedIRI) ResolveReference(ref *ParsedIRI) *ParsedIRI {
-	u, url := iri.u, *ref.u
-	uPath, refuPath := u.EscapedPath(), ref.u.EscapedPath()
+	t := &ParsedIRI{}
 
-	if len(iri.u.RawPath) > 0 {
-		uPath = iri.u.RawPath
-	}
+	if ref.hasScheme {
+		t.scheme, t.hasScheme = ref.scheme, true
+		t.authority, t.hasAuthority = ref.authority, ref.hasAuthority
+		t.path = removeDotSegments(ref.path)
+		t.query, t.hasQuery = ref.query, ref.hasQuery
+	} else {
+		if ref.hasAuthority {
+			t.authority, t.hasAuthority = ref.authority, true
+			t.path = removeDotSegments(ref.path)
+			t.query, t.hasQuery = ref.query, ref.hasQuery
+		} else {
+			if ref.path == "" {
+				t.path = iri.path
 
-	if len(ref.u.RawPath) > 0 {
-		refuPath = ref.u.RawPath
-	}
-
-	forceFragment := iri.forceFragment || ref.forceFragment
-
-	// [dpb] below mostly duplicated from stdlib
-
-	if ref.u.Scheme == "" {
-		url.Scheme = u.Scheme
-	}
-	if ref.u.Scheme != "" || ref.u.Host != "" || ref.u.User != nil {
-		// The "absoluteURI" or "net_path" cases.
-		// We can ignore the error from setPath since we know we provided a
-		// validly-escaped path.
-		badSetPath(&url, resolvePath(refuPath, ""))
-		return &ParsedIRI{
-			u:             &url,
-			forceFragment: forceFragment,
-			isOpaque:      ref.isOpaque,
-		}
-	}
-	if ref.u.Opaque != "" {
-		url.User = nil
-		url.Host = ""
-		url.Path = ""
-		return &ParsedIRI{
-			u:             &url,
-			forceFragment: forceFragment,
-			isOpaque:      true,
-		}
-	}
-	if ref.u.Path == "" && !ref.u.ForceQuery && ref.u.RawQuery == "" {
-		url.RawQuery = u.RawQuery
-		if ref.u.Fragment == "" {
-			url.Fragment = u.Fragment
-			url.RawFragment = u.RawFragment
-		}
-	}
-	if ref.u.Path == "" && u.Opaque != "" {
-		url.Opaque = u.Opaque
-		url.User = nil
-		url.Host = ""
-		url.Path = ""
-		return &ParsedIRI{
-			u:             &url,
-			forceFragment: forceFragment,
-			isOpaque:      true,
-		}
-	}
-
-	// Handle resolving relative refs against opaque (non-hierarchical) base URIs
-	if u.Opaque != "" || iri.isOpaque {
-		// For opaque URIs, resolve the reference path-like
-		var resolved string
-		if refuPath != "" {
-			if refuPath[0] == '/' {
-				// Absolute path reference
-				resolved = refuPath
-			} else {
-				// Relative path reference - merge with opaque part
-				base := u.Opaque
-				i := strings.LastIndex(base, "/")
-				if i >= 0 {
-					resolved = resolvePath(base[:i+1]+refuPath, "")
+				if ref.hasQuery {
+					t.query, t.hasQuery = ref.query, true
 				} else {
-					resolved = resolvePath(refuPath, "")
+					t.query, t.hasQuery = iri.query, iri.hasQuery
 				}
-				// Remove leading '/' from resolvePath result for opaque
-				if len(resolved) > 0 && resolved[0] == '/' {
-					resolved = resolved[1:]
-				}
-			}
-		} else {
-			resolved = u.Opaque
-		}
-		url.Opaque = resolved
-		url.User = nil
-		url.Host = ""
-		url.Path = ""
-		url.RawPath = ""
-		return &ParsedIRI{
-			u:             &url,
-			forceFragment: forceFragment,
-			isOpaque:      true,
-		}
-	}
-
-	// The "abs_path" or "rel_path" cases.
-	url.Host = u.Host
-	url.User = u.User
-
-	if uPath == "" {
-		// [dpb] handle empty base with relative ref - don't force absolute path
-
-		if len(refuPath) > 0 {
-			// force dot-segment resolution
-			resolved := resolvePath(refuPath, "")
-
-			if refuPath[0] != '/' {
-				resolved = resolved[1:]
-			}
-
-			badSetPath(&url, resolved)
-		}
-	} else {
-		badSetPath(&url, resolvePath(uPath, refuPath))
-	}
-
-	return &ParsedIRI{
-		u:             &url,
-		forceFragment: forceFragment,
-		isOpaque:      false,
-	}
-}
-
-func (iri *ParsedIRI) String() string {
-	// hacky to strings-replace values?
-	// std String() relies on private escape functions that would need to be duplicated
-
-	s := iri.u.String()
-
-	if len(iri.u.RawPath) > 0 {
-		s = strings.Replace(s, iri.u.EscapedPath(), iri.u.RawPath, 1)
-	}
-
-	if len(iri.u.RawFragment) > 0 {
-		s = strings.Replace(s, "#"+iri.u.EscapedFragment(), "#"+iri.u.RawFragment, 1)
-	} else if iri.forceFragment && !strings.Contains(s, "#") {
-		s += "#"
-	}
-
-	return s
-}
-
-// fully duplicated from stdlib
-func resolvePath(base, ref string) string {
-	var full string
-	if ref == "" {
-		full = base
-	} else if ref[0] != '/' {
-		i := strings.LastIndex(base, "/")
-		full = base[:i+1] + ref
-	} else {
-		full = ref
-	}
-	if full == "" {
-		return ""
-	}
-
-	var (
-		elem string
-		dst  strings.Builder
-	)
-	first := true
-	remaining := full
-	// We want to return a leading '/', so write it now.
-	dst.WriteByte('/')
-	found := true
-	for found {
-		elem, remaining, found = strings.Cut(remaining, "/")
-		if elem == "." {
-			first = false
-			// drop
-			continue
-		}
-
-		if elem == ".." {
-			// Ignore the leading '/' we already wrote.
-			str := dst.String()[1:]
-			index := strings.LastIndexByte(str, '/')
-
-			dst.Reset()
-			dst.WriteByte('/')
-			if index == -1 {
-				first = true
 			} else {
-				dst.WriteString(str[:index])
+				if ref.path[0] == '/' {
+					t.path = removeDotSegments(ref.path)
+				} else {
+					t.path = removeDotSegments(iri.mergePath(ref.path))
+				}
+
+				t.query, t.hasQuery = ref.query, ref.hasQuery
 			}
-		} else {
-			if !first {
-				dst.WriteByte('/')
+
+			t.authority, t.hasAuthority = iri.authority, iri.hasAuthority
+		}
+
+		t.scheme, t.hasScheme = iri.scheme, iri.hasScheme
+	}
+
+	t.fragment, t.hasFragment = ref.fragment, ref.hasFragment
+
+	if !ref.hasScheme && !ref.hasAuthority && ref.path == "" && !ref.hasQuery && !ref.hasFragment {
+		// An empty reference names the base itself. RFC 3986, section 5.1, expects a base to be stripped of its
+		// fragment beforehand; when it was not, the fragment is kept.
+		t.fragment, t.hasFragment = iri.fragment, iri.hasFragment
+	}
+
+	t.u, _ = url.Parse(t.String())
+	if t.u == nil {
+		t.u = &url.URL{}
+	}
+
+	return t
+}
+
+// mergePath implements RFC 3986, section 5.2.3.
+func (iri *ParsedIRI) mergePath(refPath string) string {
+	if iri.hasAuthority && iri.path == "" {
+		return "/" + refPath
+	}
+
+	return iri.path[:strings.LastIndexByte(iri.path, '/')+1] + refPath
+}
+
+// String implements RFC 3986, section 5.3.
+func (iri *ParsedIRI) String() string {
+	var s strings.Builder
+
+	if iri.hasScheme {
+		s.WriteString(iri.scheme)
+		s.WriteByte(':')
+	}
+
+	if iri.hasAuthority {
+		s.WriteString("//")
+		s.WriteString(iri.authority)
+	}
+
+	s.WriteString(iri.path)
+
+	if iri.hasQuery {
+		s.WriteByte('?')
+		s.WriteString(iri.query)
+	}
+
+	if iri.hasFragment {
+		s.WriteByte('#')
+		s.WriteString(iri.fragment)
+	}
+
+	return s.String()
+}
+
+// removeDotSegments implements RFC 3986, section 5.2.4.
+func removeDotSegments(in string) string {
+	var out []string
+
+	for len(in) > 0 {
+		switch {
+		case strings.HasPrefix(in, "../"):
+			in = in[3:]
+		case strings.HasPrefix(in, "./"):
+			in = in[2:]
+		case strings.HasPrefix(in, "/./"):
+			in = in[2:]
+		case in == "/.":
+			in = "/"
+		case strings.HasPrefix(in, "/../"):
+			in = in[3:]
+
+			if len(out) > 0 {
+				out = out[:len(out)-1]
 			}
-			dst.WriteString(elem)
-			first = false
+		case in == "/..":
+			in = "/"
+
+			if len(out) > 0 {
+				out = out[:len(out)-1]
+			}
+		case in == "." || in == "..":
+			in = ""
+		default:
+			i := strings.IndexByte(in[1:], '/')
+			if i < 0 {
+				i = len(in)
+			} else {
+				i++
+			}
+
+			out = append(out, in[:i])
+			in = in[i:]
 		}
 	}
 
-	if elem == "." || elem == ".." {
-		dst.WriteByte('/')
-	}
-
-	// We wrote an initial '/', but we don't want two.
-	r := dst.String()
-	if len(r) > 1 && r[1] == '/' {
-		r = r[1:]
-	}
-	return r
+	return strings.Join(out, "")
 }
